@@ -50,7 +50,31 @@ func witnessCases() [][]Op {
 			save(seg(13, 2, 2, 0, 50, 9)), {K: "sum"}, save(seg(7, 8, 3, 0, 70, 1)), {K: "term", I: 7}, {K: "sum"},
 			save(seg(15, 8, 3, 0, 4718592, 30)), {K: "term", I: 15}, {K: "term", I: 21},
 			{K: "csnap", I: 15, Snap: &SnapD{V: []uint64{1, 2}, D: 3}}, {K: "del", I: 15}, {K: "term", I: 15}, {K: "reopen"}, {K: "term", I: 21}, {K: "sum"}},
+		// W6: boundary sweep over three files made by the size limit (1-6, 7-12, 13-16): Term, Entries and CreateSnapshot at
+		// the first and the last index of EVERY file, before and after reopen
+		append(append([]Op{save(seg(1, 16, 1, 0, 4718592, 11))}, sweep([]uint64{1, 6, 7, 12, 13, 16}, 16, true)...),
+			append([]Op{{K: "reopen"}}, append(sweep([]uint64{1, 6, 7, 12, 13, 16}, 16, false), Op{K: "sum"})...)...),
+		// W7: the same over three files made by the slot limit (1-30000, 30001-60000, 60001-60003)
+		append(append([]Op{save(seg(1, 60003, 1, 0, 3, 11))}, sweep([]uint64{1, 30000, 30001, 60000, 60001, 60003}, 60003, true)...),
+			append([]Op{{K: "reopen"}}, append(sweep([]uint64{1, 30000, 30001, 60000, 60001, 60003}, 60003, false), Op{K: "sum"})...)...),
 	}
+}
+
+// sweep: Term, Entries (starting at, ending at, and straddling the index) and - if snaps - CreateSnapshot at every index of bs
+func sweep(bs []uint64, last uint64, snaps bool) []Op {
+	var ops []Op
+	for _, b := range bs {
+		ops = append(ops, Op{K: "term", I: b}, Op{K: "ents", Lo: b, Hi: b + 1, Max: math.MaxUint64})
+		if b > 1 {
+			ops = append(ops, Op{K: "ents", Lo: b - 1, Hi: minu(b+1, last) + 1, Max: math.MaxUint64})
+		}
+	}
+	if snaps {
+		for _, b := range bs {
+			ops = append(ops, Op{K: "csnap", I: b, Snap: &SnapD{V: []uint64{1, 2}, D: b%60000 + 1}}, Op{K: "term", I: b})
+		}
+	}
+	return ops
 }
 
 // crashCases: Saves with a crash image before every file-system step, and Saves in which one step fails.
@@ -93,6 +117,49 @@ func crashCases() [][]Op {
 		cs = append(cs, []Op{save("save", nil, nil, seg(1, 7, 1, 0, 4718592, 11)),
 			{K: "fsave", I: k, HS: &[3]uint64{2, 1, 5}, Segs: []Seg{seg(4, 2, 2, 0, 300, 50)}}, {K: "reopen"}, {K: "sum"}})
 	}
+	three := seg(1, 60003, 1, 0, 3, 21) // files 1-30000, 30001-60000, 60001-60003
+	cs = append(cs,
+		// K6: the cleared slot range spans several pages (conflict at index 2 of 1000): a clearing write cut at a page boundary
+		[]Op{save("save", &[3]uint64{1, 1, 1}, nil, seg(1, 1000, 1, 0, 3, 11)), save("csave", nil, nil, seg(2, 1, 2, 0, 5, 50)), {K: "reopen"}, {K: "sum"}},
+		// K7: conflict into the FIRST of three files: two later files are removed (crash between the removals)
+		[]Op{save("save", &[3]uint64{1, 1, 29000}, nil, three), save("csave", &[3]uint64{2, 1, 29991}, nil, seg(29990, 2, 2, 0, 5, 900)), {K: "reopen"}, {K: "sum"}},
+		// K8: crash points inside DeleteBefore across two files
+		[]Op{save("save", nil, nil, three), {K: "cdel", I: 60002}, {K: "sum"}, {K: "reopen"}, {K: "sum"}},
+		// K9: crash points inside CreateSnapshot
+		[]Op{save("save", &[3]uint64{1, 1, 5}, nil, seg(1, 8, 1, 0, 7, 3)), {K: "ccsnap", I: 5, Snap: &SnapD{V: v3, D: 7}}, {K: "meta"}, {K: "reopen"}, {K: "meta"}},
+	)
+	// every step of a conflicting Save into the first of three files fails once (removals, clearing write, entries)
+	for k := uint64(0); k < 7; k++ {
+		cs = append(cs, []Op{save("save", nil, nil, three),
+			{K: "fsave", I: k, HS: &[3]uint64{2, 1, 29991}, Segs: []Seg{seg(29990, 2, 2, 0, 5, 900)}}, {K: "term", I: 29990}, {K: "reopen"}, {K: "sum"}})
+	}
+	// a removal fails inside DeleteBefore: without a snapshot (nothing repairs the directory at the next start), and with one
+	for k := uint64(0); k < 2; k++ {
+		cs = append(cs, []Op{save("save", nil, nil, three), {K: "fdel", I: 60002, Step: k}, {K: "sum"}, {K: "reopen"}, {K: "sum"}})
+		cs = append(cs, []Op{save("save", &[3]uint64{1, 1, 60002}, nil, three), {K: "csnap", I: 60002, Snap: &SnapD{V: v3, D: 4}},
+			{K: "fdel", I: 60002, Step: k}, {K: "sum"}, {K: "reopen"}, {K: "sum"}})
+	}
+	// a write fails inside CreateSnapshot
+	for k := uint64(0); k < 4; k++ {
+		cs = append(cs, []Op{save("save", &[3]uint64{1, 1, 5}, nil, seg(1, 8, 1, 0, 7, 3)),
+			{K: "fcsnap", I: 5, Step: k, Snap: &SnapD{V: v3, D: 7}}, {K: "meta"}, {K: "reopen"}, {K: "meta"}})
+	}
+	// a step of Init fails (removal of the files below the snapshot index, creation of a first file)
+	for k := uint64(0); k < 3; k++ {
+		cs = append(cs, []Op{save("save", &[3]uint64{1, 1, 60002}, nil, three), {K: "csnap", I: 60002, Snap: &SnapD{V: v3, D: 4}},
+			{K: "crash"}, {K: "finit", Step: k}, {K: "sum"}, {K: "meta"}})
+	}
+	cs = append(cs, []Op{{K: "finit", Step: 0}, save("save", nil, nil, seg(1, 3, 1, 0, 7, 3)), {K: "finit", Step: 1}, {K: "sum"}})
+	// the callers' protocol (raftconn/node.go, engine/partition_raft.go): Save with the commit index, snapshot at the
+	// committed index after a flush, ClearEntryLog = DeleteBefore(min(proposed index, own snapshot index)), restart,
+	// replay = Entries(snapshot index, commit+1)
+	cs = append(cs, []Op{
+		save("save", &[3]uint64{1, 1, 40000}, nil, seg(1, 45000, 1, 0, 3, 5)),
+		{K: "csnap", I: 40000, Snap: &SnapD{V: v3, D: 1}}, {K: "del", I: 40000}, {K: "meta"},
+		save("save", &[3]uint64{2, 1, 61000}, nil, seg(45001, 17000, 2, 0, 3, 9)),
+		{K: "csnap", I: 61000, Snap: &SnapD{V: v3, D: 2}}, {K: "del", I: 61000}, {K: "crash"}, {K: "meta"},
+		{K: "ents", Lo: 61000, Hi: 61001, Max: math.MaxUint64}, {K: "ents", Lo: 61000, Hi: 62001, Max: math.MaxUint64}, {K: "term", I: 61000},
+		save("save", &[3]uint64{3, 1, 62000}, nil, seg(61500, 600, 3, 0, 3, 1)), {K: "sum"}})
 	return cs
 }
 
@@ -103,6 +170,8 @@ type caseGen struct {
 	tag  uint64
 	term uint64
 	lay  layout
+	tail []Op // boundary sweep appended at the end of a case that has more than one entry file
+	done bool
 }
 
 // layout: the generator's own book-keeping of where the rotation rule (slot count, file size) puts each entry, used
@@ -149,6 +218,24 @@ func (l *layout) bounds(lo, hi uint64) []uint64 {
 			if idx := uint64(i + 1); idx >= lo && idx <= hi {
 				out = append(out, idx)
 			}
+		}
+	}
+	return out
+}
+
+// edges returns the first and the last index of every entry file (by the generator's book-keeping) inside [lo, hi],
+// at most the 4 newest files
+func (l *layout) edges(lo, hi uint64) []uint64 {
+	var out []uint64
+	n := uint64(len(l.file))
+	if hi > n {
+		hi = n
+	}
+	end := hi
+	for i := hi; i >= lo && i >= 1 && len(out) < 8; i-- {
+		if i == lo || i == 1 || l.file[i-1] != l.file[i-2] {
+			out = append([]uint64{i, end}, out...)
+			end = i - 1
 		}
 	}
 	return out
@@ -270,10 +357,22 @@ func sub(a, b uint64) uint64 {
 func (g *caseGen) next(w *world, step int) *Op {
 	r := g.r
 	if step >= g.n {
-		if step == g.n {
-			return &Op{K: "sum"}
+		if !g.done {
+			g.done = true
+			// Term / Entries / CreateSnapshot at the first and the last index of every entry file still in the log
+			f, l := msFirstLast(w.ms)
+			if bs := g.lay.edges(f, l); len(bs) > 2 && f <= l {
+				g.tail = sweep(bs, l, true)
+				w.c.Stats["sweep_files"] += len(bs) / 2
+			}
+			g.tail = append(g.tail, Op{K: "sum"})
 		}
-		return nil
+		if len(g.tail) == 0 {
+			return nil
+		}
+		op := g.tail[0]
+		g.tail = g.tail[1:]
+		return &op
 	}
 	first, last := msFirstLast(w.ms)
 	empty := last < first
@@ -404,11 +503,30 @@ func (g *caseGen) next(w *world, step int) *Op {
 		if r.Chance(2, 3) {
 			d.V = []uint64{1, 2, 3}[:r.Range(0, 3)]
 		}
-		return &Op{K: "csnap", I: g.aim(i, first, last), Snap: d}
+		op := &Op{K: "csnap", I: g.aim(i, first, last), Snap: d}
+		if r.Chance(1, 8) {
+			op.K, op.Step = "fcsnap", uint64(r.Intn(4))
+			if r.Chance(1, 2) {
+				op.K = "ccsnap"
+			}
+		}
+		return op
 	case c < 86:
 		i := gen.Pick(r, []uint64{sub(first, 1), first, g.pickIndex(first, last), w.si, w.si, last, last + 1})
-		return &Op{K: "del", I: g.aim(i, first, last)}
+		op := &Op{K: "del", I: g.aim(i, first, last)}
+		if g.kind != "size" && r.Chance(1, 4) {
+			op.K, op.Step = "cdel", 0
+			// a failing removal is only injected inside the callers' contract (index <= snapshot index): the next start
+			// removes the file again
+			if op.I <= w.si && r.Chance(1, 2) {
+				op.K, op.Step = "fdel", uint64(r.Intn(2))
+			}
+		}
+		return op
 	case c < 93:
+		if r.Chance(1, 10) {
+			return &Op{K: "finit", Step: uint64(r.Intn(4))}
+		}
 		return &Op{K: "reopen"}
 	case c < 95:
 		return &Op{K: "crash"}
